@@ -589,6 +589,11 @@ func classify(j job, l *logged, exit int, timedOut bool, tail, stderr string) cr
 	case exit == exitWrong && len(fs) >= 3:
 		c.Kind, c.Msg = "wrong", strings.Join(fs[2:], " ")
 		c.Sig = fmt.Sprintf("C05:canary-failed:%s", j.entry)
+		if strings.HasPrefix(c.Msg, "[") {
+			if k := strings.Index(c.Msg, "]"); k > 1 {
+				c.Sig += ":" + c.Msg[1:k]
+			}
+		}
 	case exit == exitStall || timedOut:
 		note := ""
 		if len(fs) >= 4 {
